@@ -287,6 +287,41 @@ def _eval_case(case):
         else:
             if r.unread_len != 0:
                 fails.append(['opseq-leftover', '%d unread' % r.unread_len])
+    elif k == 'crc_threads':
+        # the process-wide first SSH-1 checksum computed by several threads at once
+        import sys
+        import threading
+        from ssh_audit.ssh1 import SSH1
+        data = case['data'].encode('latin-1')
+        ref = wire.ssh1_crc(data)
+        old = sys.getswitchinterval()
+        bad = 0
+        try:
+            sys.setswitchinterval(1e-6)
+            for rep in range(case['reps']):
+                SSH1._crc32 = None
+                try:
+                    import ssh_audit.ssh1_crc32 as _m
+                    for attr, val in list(vars(_m.SSH1_CRC32).items()):
+                        if isinstance(val, list) and not attr.startswith('__'):
+                            val.clear()          # a class-level table, if any, starts empty like in a fresh process
+                except Exception:
+                    pass
+                res = []
+                bar = threading.Barrier(case['threads'])
+
+                def w():
+                    bar.wait()
+                    res.append(SSH1.crc32(data))
+                ts = [threading.Thread(target=w) for _ in range(case['threads'])]
+                [t.start() for t in ts]
+                [t.join() for t in ts]
+                bad += sum(1 for x in res if x != ref)
+        finally:
+            sys.setswitchinterval(old)
+        nt = True
+        if bad:
+            fails.append(['ssh1-crc32-wrong-under-concurrent-first-use', '%d wrong checksums in %d x %d concurrent first uses' % (bad, case['reps'], case['threads'])])
     elif k == 'frame_ref':
         # packets from the reference encoder (every legal padding) must be read back by the tool
         n, pad = case['len'], case['pad']
@@ -413,6 +448,11 @@ def run(ctx):
     for seg in (0, 1, 2, 5, 7, 8, 13, 64, 2048):
         for a in list(range(1, 70)) + [2036, 2040, 2041, 2043, 2047, 2048, 4088, 4091]:
             cases.append({'kind': 'frame_seq', 'lens': [a, (a * 7) % 61 + 1, 5], 'seg': seg})
+    # long-lived connections: far more than 64 KiB through one reader, packets back to back
+    for seg in (0, 1500, 2048, 4096, 65536):
+        cases.append({'kind': 'frame_seq', 'lens': [3000 + 13 * i for i in range(30)] + [5, 4000, 17], 'seg': seg})
+        cases.append({'kind': 'frame_seq', 'lens': [900] * 90 + [1, 2, 3], 'seg': seg})
+    cases += [{'kind': 'crc_threads', 'data': 'The quick brown fox' * (i + 1), 'threads': 4 + i % 5, 'reps': 12} for i in range(6 if q else 40)]
     cases += [{'kind': 'frame_ref', 'len': n, 'pad': p, 'fill': n} for n in range(1, 300 if q else 1200) for p in range(0, 4)]
     cases += [{'kind': 'frame_ref', 'len': n, 'pad': p, 'fill': n} for n in (1, 2, 3, 4, 5, 6, 7, 8, 19, 188, 1000) for p in range(0, 32)]     # every legal padding length 4..255
     ctx.map(cases, chunk=2000)
